@@ -151,6 +151,208 @@ def make_e(params, part, nparts):
     return h
 
 
+# ---------------------------------------------------------------------------
+# S tier (inductive): one register / unregister on the real BaseAdapterRegistry from an arbitrary pre-state
+# ---------------------------------------------------------------------------
+
+class AMap:
+    """==-matching association list with the mapping protocol BaseAdapterRegistry uses (never hashes its keys, so
+    symbolic key identities stay symbolic)."""
+
+    def __init__(self):
+        self.items_ = []
+
+    def get(self, key, default=None):
+        for k, v in self.items_:
+            if k == key:
+                return v
+        return default
+
+    def __getitem__(self, key):
+        for k, v in self.items_:
+            if k == key:
+                return v
+        raise KeyError(key)
+
+    def __setitem__(self, key, value):
+        for i, (k, _v) in enumerate(self.items_):
+            if k == key:
+                self.items_[i] = (k, value)
+                return
+        self.items_.append((key, value))
+
+    def __delitem__(self, key):
+        for i, (k, _v) in enumerate(self.items_):
+            if k == key:
+                del self.items_[i]
+                return
+        raise KeyError(key)
+
+    def __bool__(self):
+        return len(self.items_) > 0
+
+    def __len__(self):
+        return len(self.items_)
+
+    def items(self):
+        return list(self.items_)
+
+
+class SKey:
+    """A specification stand-in whose identity is a (symbolic) integer."""
+    __slots__ = ('k',)
+
+    def __init__(self, k):
+        self.k = k
+
+    def __eq__(self, other):
+        return isinstance(other, SKey) and self.k == other.k
+
+    def __ne__(self, other):
+        return not self.__eq__(other)
+
+    __hash__ = None
+
+
+def make_s_register_step(params, part, nparts):
+    """Pre-state: the arity-1 registration map holds <=2 entries under symbolic key identities (which may alias each
+    other and the operated key), names from {'', 'n'}, values from {v1, v1b (== v1, distinct), v2}; the provided
+    reference counts are the entry counts plus an arbitrary slack in {0, 1} (the code over-counts on overwrite; only
+    'never too small' is an invariant).  One register / unregister with a symbolic key.  Post: registered() and
+    allRegistrations() equal the net-effect model, no empty container is left, counts are still never too small,
+    remove_extendor ran only for an interface without live entries, changed() ran iff the stored state changed."""
+    from zope.interface.adapter import BaseAdapterRegistry
+    vals = [M.Val('v1'), M.Val('v1b', 'v1'), M.Val('v2')]
+
+    class StubLookup:
+        def __init__(self, registry):
+            self.log = []
+
+        def changed(self, orig):
+            self.log.append(('changed',))
+
+        def add_extendor(self, p):
+            self.log.append(('add', p))
+
+        def remove_extendor(self, p):
+            self.log.append(('remove', p))
+
+        def __getattr__(self, name):          # the delegated lookup entry points are not part of this kernel
+            if name.startswith('__'):
+                raise AttributeError(name)
+            return lambda *a, **k: None
+
+    class Reg(BaseAdapterRegistry):
+        _mappingType = AMap
+        _providedType = AMap
+        LookupClass = StubLookup
+
+    def h(nent: int, op: int, r0: int, p0: int, n0: int, v0: int, s0: int, r1: int, p1: int, n1: int, v1: int,
+          kr: int, kp: int, kn: int, kv: int):
+        c_n = pick(nent, 3)
+        c_op = pick(op, 2)
+        assume((c_n * 2 + c_op) % nparts == part)
+        ents = []
+        for (r, p, n, v) in [(r0, p0, n0, v0), (r1, p1, n1, v1)][:c_n]:
+            ents.append((r, p, 'n' if pick(n, 2) else '', vals[pick(v, 3)]))
+        if c_n == 2:      # representation invariant: one value per (required, provided, name)
+            a, b = ents
+            assume(not (a[0] == b[0] and a[1] == b[1] and a[2] == b[2]))
+        reg = Reg()
+        reg._v_lookup.log[:] = []
+        level1 = AMap()
+        for (r, p, n, v) in ents:
+            d1 = level1.get(SKey(r))
+            if d1 is None:
+                d1 = AMap()
+                level1[SKey(r)] = d1
+            d2 = d1.get(SKey(p))
+            if d2 is None:
+                d2 = AMap()
+                d1[SKey(p)] = d2
+            d2[n] = v
+            cnt = reg._provided.get(SKey(p), 0)
+            reg._provided[SKey(p)] = cnt + 1
+        if c_n:
+            reg._adapters.append(AMap())
+            reg._adapters.append(level1)
+            slack = pick(s0, 2)
+            if slack:     # an earlier overwrite counted the first provided interface once more
+                reg._provided[SKey(ents[0][1])] = reg._provided[SKey(ents[0][1])] + 1
+        name = 'n' if pick(kn, 2) else ''
+        kvi = pick(kv, 4)
+        value = None if kvi == 3 else vals[kvi]
+        key_r, key_p = SKey(kr), SKey(kp)
+        reached(None, dict(entries=len(ents), op=c_op, value=kvi))
+        # net-effect model (== on the integer identities, no hashing)
+        model = list(ents)
+
+        def find(r, p, n):
+            for i, e in enumerate(model):
+                if e[0] == r and e[1] == p and e[2] == n:
+                    return i
+            return -1
+        before = [(e[0], e[1], e[2], e[3]) for e in model]
+        i = find(kr, kp, name)
+        if c_op == 0 and value is not None:
+            reg.register([key_r], key_p, name, value)
+            if i >= 0:
+                model[i] = (kr, kp, name, value)
+            else:
+                model.append((kr, kp, name, value))
+        else:
+            if c_op == 0:
+                reg.register([key_r], key_p, name, None)            # registering None unregisters
+            else:
+                reg.unregister([key_r], key_p, name, value)
+            if i >= 0 and (value is None or model[i][3] is value):
+                del model[i]
+        changed_state = len(before) != len(model) or any(x[3] is not y[3] for x, y in zip(before, model))
+        # registered() for the operated key and for every model entry
+        cur = find(kr, kp, name)
+        got = reg.registered([key_r], key_p, name)
+        if got is not (model[cur][3] if cur >= 0 else None):
+            raise Violation('registered() of the operated key returns %r, net effect %r' % (got, model[cur][3] if cur >= 0 else None),
+                            signature='C09:kernel:registered')
+        for e in model:
+            if reg.registered([SKey(e[0])], SKey(e[1]), e[2]) is not e[3]:
+                raise Violation('registered() lost or changed another live entry', signature='C09:kernel:frame')
+        listed = list(reg.allRegistrations())
+        if len(listed) != len(model):
+            raise Violation('allRegistrations() lists %d entries, %d are live' % (len(listed), len(model)), signature='C09:kernel:allRegistrations')
+        for (req, prov, nm, val) in listed:
+            if not any(req[0].k == e[0] and prov.k == e[1] and nm == e[2] and val is e[3] for e in model):
+                raise Violation('allRegistrations() lists an entry that is not live', signature='C09:kernel:allRegistrations')
+        # no empty container left behind
+        for order, comps in enumerate(reg._adapters):
+            if order == len(reg._adapters) - 1 and not comps:
+                raise Violation('an empty trailing arity map was left', signature='C09:kernel:prune')
+            if order == 1:
+                for _k1, d1 in comps.items():
+                    if not d1:
+                        raise Violation('an empty container was left under a required key', signature='C09:kernel:prune')
+                    for _k2, d2 in d1.items():
+                        if not d2:
+                            raise Violation('an empty container was left under a provided key', signature='C09:kernel:prune')
+        # provided counts never too small; remove_extendor only when nothing is left
+        for e in model:
+            n_live = 0
+            for f in model:
+                if f[1] == e[1]:
+                    n_live += 1
+            if reg._provided.get(SKey(e[1]), 0) < n_live:
+                raise Violation('the reference count of a provided interface (%r) is smaller than its %d live registrations' % (
+                    reg._provided.get(SKey(e[1]), 0), n_live), signature='C09:kernel:count-too-small')
+        for ev in reg._v_lookup.log:
+            if ev[0] == 'remove' and any(f[1] == ev[1].k for f in model):
+                raise Violation('remove_extendor ran for an interface that still has live registrations', signature='C09:kernel:extendor')
+        n_changed = sum(1 for ev in reg._v_lookup.log if ev[0] == 'changed')
+        if (n_changed > 0) != changed_state:
+            raise Violation('changed() ran %d time(s), the stored state %s' % (n_changed, 'changed' if changed_state else 'did not change'),
+                            signature='C09:kernel:changed')
+    return h
+
+
 _ENC = ['zope.interface.adapter:BaseAdapterRegistry.register', 'zope.interface.adapter:BaseAdapterRegistry.unregister',
         'zope.interface.adapter:BaseAdapterRegistry._find_leaf', 'zope.interface.adapter:BaseAdapterRegistry.registered',
         'zope.interface.adapter:BaseAdapterRegistry._all_entries', 'zope.interface.adapter:BaseAdapterRegistry.allRegistrations',
@@ -179,6 +381,18 @@ HARNESSES = [
             bounds='every history of <=3 (thorough 4) ops from a 29-op alphabet (4 keys incl. an arity-2 one, one subscription key, rebuild): covers '
                    'overwrite-then-unregister, pruning of emptied nested containers while sibling keys remain, rebuild after mixed histories',
             oracle=_OR),
+    Harness('s_register_step', make_s_register_step, kind='S', impls=('py',),
+            tiers=dict(quick=dict(budget_s=150, parts=6, ppt=40, params={}), thorough=dict(budget_s=1500, parts=6, ppt=60, params={})),
+            encoded=_ENC[:6],
+            bounds='inductive step on the real BaseAdapterRegistry (arity 1): arbitrary pre-state of <=2 entries under symbolic key identities '
+                   '(aliasing allowed), names "" / "n", values v1 / v1b (== v1) / v2, provided counts = entry counts + slack {0,1}; one '
+                   'register (value or None) or unregister (any / v1 / v1b / v2) with a symbolic key',
+            outside='arity other than 1; more than 2 pre-existing entries; subscriptions (E tier)',
+            oracle='net-effect model over the integer identities; registered(), allRegistrations(), no empty containers, counts never too '
+                   'small, remove_extendor only without live entries, changed() iff the stored state changed',
+            stubs=['nested dicts and the provided-count dict replaced by ==-matching association lists', 'specification stand-ins with symbolic identity',
+                   'recording LookupClass'],
+            assumptions=['representation invariant of the pre-state: one value per key, no empty containers, counts >= entries']),
 ]
 
 MANIFEST = {
